@@ -25,3 +25,1169 @@ Proof.
   intro code. unfold default_result_state, SuccessState, ErrorState, UnknownState.
   destruct (code >? 199) eqn:A; destruct (code <? 300) eqn:B; destruct (code >? 399) eqn:C; cbn; lia.
 Qed.
+
+(* ---------- result binding (parseResponseBody) ---------- *)
+
+(* the body can be obtained: no recorded error, and it is cached or the read succeeds *)
+Definition body_ok (b : body_oracle) (r : response) : Prop :=
+  r_err r = None /\ (r_cached r = true \/ b_read b = None).
+
+Lemma to_bytes_ok : forall b r r1,
+  r_present r = true -> to_bytes b r = (r1, None) -> body_ok b r.
+Proof.
+  intros b r r1 Hp H. unfold to_bytes in H. unfold body_ok.
+  destruct (r_err r) eqn:E; [discriminate|].
+  destruct (r_cached r) eqn:C; [auto|].
+  rewrite Hp in H. cbn in H. destruct (b_read b) eqn:R; [discriminate|auto].
+Qed.
+
+Lemma to_bytes_fail : forall b r r1 x,
+  r_present r = true -> to_bytes b r = (r1, Some x) -> ~ body_ok b r.
+Proof.
+  intros b r r1 x Hp H [E [C|R]]; unfold to_bytes in H; rewrite E in H.
+  - rewrite C in H. discriminate.
+  - destruct (r_cached r); [discriminate|]. rewrite Hp in H. cbn in H. rewrite R in H. discriminate.
+Qed.
+
+(* to_bytes touches only Err and the cache *)
+Lemma to_bytes_frame : forall b r r1 e, to_bytes b r = (r1, e) ->
+  r_present r1 = r_present r /\ r_status r1 = r_status r /\ r_chk r1 = r_chk r /\
+  r_result r1 = r_result r /\ r_error r1 = r_error r /\
+  (e = None -> r_err r1 = None) /\ (forall x, e = Some x -> r_err r1 = Some x).
+Proof.
+  intros b r r1 e H. unfold to_bytes in H.
+  destruct (r_err r) eqn:E.
+  { inversion H; subst. repeat split; auto; try discriminate. intros x Hx; inversion Hx; subst; auto. }
+  destruct (r_cached r).
+  { inversion H; subst. repeat split; auto. discriminate. }
+  destruct (negb (r_present r)).
+  { inversion H; subst. repeat split; auto. discriminate. }
+  destruct (b_read b); inversion H; subst; cbn; repeat split; auto; try discriminate;
+  intros x Hx; inversion Hx; auto.
+Qed.
+
+Lemma unmarshal_body_spec : forall b um r r1 e, r_present r = true -> unmarshal_body b um r = (r1, e) ->
+  r_present r1 = true /\ r_status r1 = r_status r /\ r_chk r1 = r_chk r /\
+  r_result r1 = r_result r /\ r_error r1 = r_error r /\
+  (e = None <-> body_ok b r /\ um = None) /\
+  (body_ok b r -> e = um) /\
+  (e = None -> r_err r1 = None) /\
+  (forall x, e = Some x -> ~ body_ok b r -> r_err r1 = Some x).
+Proof.
+  intros b um r r1 e Hp H. unfold unmarshal_body in H.
+  destruct (to_bytes b r) as [r0 e0] eqn:T.
+  pose proof (to_bytes_frame _ _ _ _ T) as (F1 & F2 & F3 & F4 & F5 & F6 & F7).
+  destruct e0 as [x|].
+  - inversion H; subst. pose proof (to_bytes_fail _ _ _ _ Hp T) as NB.
+    rewrite F1, F2, F3, F4, F5. repeat split; auto; try discriminate.
+    all: try (intros [B _]; contradiction).
+    all: try (intro B; contradiction).
+    all: try (intros y Hy _; inversion Hy; subst; apply F7; auto).
+  - inversion H; subst. pose proof (to_bytes_ok _ _ _ Hp T) as B.
+    rewrite F1, F2, F3, F4, F5. repeat split; auto.
+    all: try (intros [_ U]; auto).
+    all: try (intros y Hy NB; contradiction).
+    all: try (destruct B as [B1 B2]; assumption).
+Qed.
+
+Lemma result_state_frame : forall r r1,
+  r_present r1 = r_present r -> r_status r1 = r_status r -> r_chk r1 = r_chk r -> result_state r1 = result_state r.
+Proof. intros r r1 A B C. unfold result_state. rewrite A, B, C. reflexivity. Qed.
+
+Lemma success_result_iff : forall tg b r,
+  r_result r = false ->
+  (r_result (fst (parse_response_body tg b r)) = true <->
+   t_result tg = true /\ r_present r = true /\ result_state r = SuccessState /\
+   r_status r <> no_content /\ body_ok b r /\ b_um_res b = None).
+Proof.
+  intros tg b r R0. unfold parse_response_body.
+  destruct (r_present r) eqn:P; cbn [negb].
+  2:{ cbn. rewrite R0. split; [discriminate|]. intros (_ & X & _). discriminate. }
+  destruct (result_state r =? SuccessState) eqn:S.
+  - apply Z.eqb_eq in S.
+    destruct (t_result tg) eqn:T; cbn [andb].
+    2:{ cbn. rewrite R0. split; [discriminate|]. intros (X & _). discriminate. }
+    destruct (r_status r =? no_content) eqn:N; cbn [negb].
+    { cbn. rewrite R0. apply Z.eqb_eq in N. split; [discriminate|]. intros (_ & _ & _ & X & _). contradiction. }
+    apply Z.eqb_neq in N.
+    destruct (unmarshal_body b (b_um_res b) r) as [r1 e] eqn:U.
+    pose proof (unmarshal_body_spec _ _ _ _ _ P U) as (_ & _ & _ & U4 & _ & U6 & _).
+    destruct e; cbn.
+    + rewrite U4, R0. split; [discriminate|]. intros (_ & _ & _ & _ & B & M).
+      destruct U6 as [_ U6]. specialize (U6 (conj B M)). discriminate.
+    + split; auto. intros _. destruct U6 as [U6 _]. destruct (U6 eq_refl) as [[B1 B2] M].
+      unfold body_ok. repeat split; auto.
+  - apply Z.eqb_neq in S.
+    assert (forall X : response * option err, r_result (fst X) = r_result r -> 
+            (r_result (fst X) = true <-> t_result tg = true /\ true = true /\ result_state r = SuccessState /\
+              r_status r <> no_content /\ body_ok b r /\ b_um_res b = None)) as K.
+    { intros X HX. rewrite HX, R0. split; [discriminate|]. intros (_ & _ & C & _). contradiction. }
+    apply K.
+    destruct (result_state r =? ErrorState); [|reflexivity].
+    destruct (r_status r =? no_content); [reflexivity|].
+    destruct (t_error tg).
+    { destruct (unmarshal_body b (b_um_req b) r) as [r1 e] eqn:U.
+      pose proof (unmarshal_body_spec _ _ _ _ _ P U) as (_ & _ & _ & U4 & _).
+      destruct e; cbn; auto. }
+    destruct (t_common tg); [|reflexivity].
+    destruct (unmarshal_body b (b_um_com b) r) as [r1 e] eqn:U.
+    pose proof (unmarshal_body_spec _ _ _ _ _ P U) as (_ & _ & _ & U4 & _).
+    destruct e; cbn; auto.
+Qed.
+
+(* which target the response is bound to, if any *)
+Inductive which := BRes | BReq | BCom.
+
+Definition applicable (tg : targets) (r : response) : option which :=
+  if negb (r_present r) then None
+  else if result_state r =? SuccessState then
+    (if t_result tg && negb (r_status r =? no_content) then Some BRes else None)
+  else if result_state r =? ErrorState then
+    (if r_status r =? no_content then None
+     else if t_error tg then Some BReq else if t_common tg then Some BCom else None)
+  else None.
+
+Definition um_of (b : body_oracle) (w : which) : option err :=
+  match w with BRes => b_um_res b | BReq => b_um_req b | BCom => b_um_com b end.
+
+Definition bind (w : which) (r : response) : response :=
+  match w with BRes => set_result true r | BReq => set_error EReq r | BCom => set_error ECommon r end.
+
+Lemma parse_as_applicable : forall tg b r,
+  parse_response_body tg b r =
+  match applicable tg r with
+  | None => (r, None)
+  | Some w => let '(r1, e) := unmarshal_body b (um_of b w) r in
+              match e with None => (bind w r1, None) | Some x => (r1, Some x) end
+  end.
+Proof.
+  intros tg b r. unfold parse_response_body, applicable.
+  destruct (negb (r_present r)); [reflexivity|].
+  destruct (result_state r =? SuccessState).
+  { destruct (t_result tg && negb (r_status r =? no_content)); reflexivity. }
+  destruct (result_state r =? ErrorState); [|reflexivity].
+  destruct (r_status r =? no_content); [reflexivity|].
+  destruct (t_error tg); [reflexivity|].
+  destruct (t_common tg); reflexivity.
+Qed.
+
+Lemma applicable_present : forall tg r w, applicable tg r = Some w -> r_present r = true.
+Proof. intros tg r w H. unfold applicable in H. destruct (r_present r); [reflexivity|discriminate]. Qed.
+
+Lemma applicable_res : forall tg r,
+  applicable tg r = Some BRes <->
+  t_result tg = true /\ r_present r = true /\ result_state r = SuccessState /\ r_status r <> no_content.
+Proof.
+  intros tg r. unfold applicable. destruct (r_present r); cbn [negb].
+  2:{ split; [discriminate|]. intros (_ & X & _); discriminate. }
+  destruct (result_state r =? SuccessState) eqn:S.
+  - apply Z.eqb_eq in S. destruct (t_result tg); cbn [andb].
+    2:{ split; [discriminate|]. intros (X & _); discriminate. }
+    destruct (r_status r =? no_content) eqn:N; cbn [negb].
+    + apply Z.eqb_eq in N. split; [discriminate|]. intros (_ & _ & _ & X); contradiction.
+    + apply Z.eqb_neq in N. split; auto.
+  - apply Z.eqb_neq in S. split.
+    + destruct (result_state r =? ErrorState); [|discriminate].
+      destruct (r_status r =? no_content); [discriminate|].
+      destruct (t_error tg); [discriminate|]. destruct (t_common tg); discriminate.
+    + intros (_ & _ & X & _); contradiction.
+Qed.
+
+Lemma applicable_err : forall tg r w, w <> BRes ->
+  (applicable tg r = Some w <->
+   r_present r = true /\ result_state r = ErrorState /\ r_status r <> no_content /\
+   (w = BReq /\ t_error tg = true \/ w = BCom /\ t_error tg = false /\ t_common tg = true)).
+Proof.
+  intros tg r w Hw. pose proof states_distinct as (D1 & _ & _).
+  unfold applicable. destruct (r_present r); cbn [negb].
+  2:{ split; [discriminate|]. intros (X & _); discriminate. }
+  destruct (result_state r =? SuccessState) eqn:S.
+  { apply Z.eqb_eq in S. split.
+    - destruct (t_result tg && negb (r_status r =? no_content)); [|discriminate].
+      intro H; inversion H; subst; contradiction.
+    - intros (_ & X & _). congruence. }
+  destruct (result_state r =? ErrorState) eqn:E.
+  2:{ apply Z.eqb_neq in E. split; [discriminate|]. intros (_ & X & _); contradiction. }
+  apply Z.eqb_eq in E.
+  destruct (r_status r =? no_content) eqn:N.
+  { apply Z.eqb_eq in N. split; [discriminate|]. intros (_ & _ & X & _); contradiction. }
+  apply Z.eqb_neq in N.
+  destruct (t_error tg).
+  { split.
+    - intro H; inversion H; subst. repeat split; auto.
+    - intros (_ & _ & _ & [[A _]|[_ [B _]]]); [subst; reflexivity|discriminate]. }
+  destruct (t_common tg).
+  { split.
+    - intro H; inversion H; subst. repeat split; auto.
+    - intros (_ & _ & _ & [[_ B]|[A _]]); [discriminate|subst; reflexivity]. }
+  split; [discriminate|]. intros (_ & _ & _ & [[_ B]|[_ [_ B]]]); discriminate.
+Qed.
+
+(* full characterisation of one binding step *)
+Lemma parse_spec : forall tg b r r' e, parse_response_body tg b r = (r', e) ->
+  r_present r' = r_present r /\ r_status r' = r_status r /\ r_chk r' = r_chk r /\
+  match applicable tg r with
+  | None => r' = r /\ e = None
+  | Some w =>
+      (body_ok b r /\ um_of b w = None ->
+         e = None /\ r_err r' = None /\
+         r_result r' = (match w with BRes => true | _ => r_result r end) /\
+         r_error r' = (match w with BRes => r_error r | BReq => EReq | BCom => ECommon end)) /\
+      (~ (body_ok b r /\ um_of b w = None) ->
+         e <> None /\ r_result r' = r_result r /\ r_error r' = r_error r /\
+         (body_ok b r -> e = um_of b w))
+  end.
+Proof.
+  intros tg b r r' e H. rewrite parse_as_applicable in H.
+  destruct (applicable tg r) as [w|] eqn:A.
+  2:{ inversion H; subst. auto. }
+  pose proof (applicable_present _ _ _ A) as P.
+  destruct (unmarshal_body b (um_of b w) r) as [r1 e1] eqn:U.
+  pose proof (unmarshal_body_spec _ _ _ _ _ P U) as (U1 & U2 & U3 & U4 & U5 & U6 & U7 & U8 & U9).
+  destruct e1 as [x|]; inversion H; subst.
+  - split; [congruence|]. split; [auto|]. split; [auto|]. split.
+    + intro K. apply U6 in K. discriminate.
+    + intros _. split; [discriminate|]. auto.
+  - destruct U6 as [U6 _]. specialize (U6 eq_refl). specialize (U8 eq_refl).
+    split; [destruct w; cbn; congruence|]. split; [destruct w; cbn; auto|]. split; [destruct w; cbn; auto|]. split.
+    + intros _. split; [reflexivity|]. split; [destruct w; cbn; auto|]. split; destruct w; cbn; auto.
+    + intro K. contradiction.
+Qed.
+
+Lemma bind_ok_dec : forall b r w, {body_ok b r /\ um_of b w = None} + {~ (body_ok b r /\ um_of b w = None)}.
+Proof.
+  intros b r w. unfold body_ok.
+  destruct (um_of b w); [right; intros [_ X]; discriminate|].
+  destruct (r_err r); [right; intros [[X _] _]; discriminate|].
+  destruct (r_cached r); [left; auto|].
+  destruct (b_read b); [right; intros [[_ [X|X]] _]; discriminate|left; auto].
+Qed.
+
+(* what a binding step leaves in (result, error), in terms of [applicable] *)
+Lemma parse_binds : forall tg b r,
+  let r' := fst (parse_response_body tg b r) in
+  (forall w, applicable tg r = Some w -> body_ok b r /\ um_of b w = None ->
+     r_result r' = (match w with BRes => true | _ => r_result r end) /\
+     r_error r' = (match w with BRes => r_error r | BReq => EReq | BCom => ECommon end)) /\
+  ((applicable tg r = None \/ exists w, applicable tg r = Some w /\ ~ (body_ok b r /\ um_of b w = None)) ->
+     r_result r' = r_result r /\ r_error r' = r_error r).
+Proof.
+  intros tg b r. destruct (parse_response_body tg b r) as [r' e] eqn:H. cbn.
+  pose proof (parse_spec _ _ _ _ _ H) as (_ & _ & _ & K).
+  split.
+  - intros w A D. rewrite A in K. destruct K as [K _]. destruct (K D) as (_ & _ & X & Y). auto.
+  - intros [A|[w [A D]]]; rewrite A in K.
+    + destruct K as [K _]. subst. auto.
+    + destruct K as [_ K]. destruct (K D) as (_ & X & Y & _). auto.
+Qed.
+
+Lemma error_result_iff : forall tg b r,
+  r_error r = ENone ->
+  let r' := fst (parse_response_body tg b r) in
+  (r_error r' = EReq <->
+     t_error tg = true /\ r_present r = true /\ result_state r = ErrorState /\
+     r_status r <> no_content /\ body_ok b r /\ b_um_req b = None) /\
+  (r_error r' = ECommon <->
+     t_error tg = false /\ t_common tg = true /\ r_present r = true /\ result_state r = ErrorState /\
+     r_status r <> no_content /\ body_ok b r /\ b_um_com b = None).
+Proof.
+  intros tg b r E0 r'. pose proof (parse_binds tg b r) as [K1 K2]. fold r' in K1, K2.
+  assert (BReq <> BRes) as N1 by discriminate. assert (BCom <> BRes) as N2 by discriminate.
+  pose proof (applicable_err tg r BReq N1) as AR. pose proof (applicable_err tg r BCom N2) as AC.
+  destruct (applicable tg r) as [w|] eqn:A.
+  2:{ destruct (K2 (or_introl eq_refl)) as [_ X]. rewrite X, E0. split; (split; [discriminate|]).
+      - intros (T & P & S & N & _). destruct AR as [_ AR]. discriminate AR. repeat split; auto.
+      - intros (T & C & P & S & N & _). destruct AC as [_ AC]. discriminate AC. repeat split; auto. }
+  destruct (bind_ok_dec b r w) as [D|D].
+  - destruct (K1 w eq_refl D) as [_ X]. rewrite X. destruct w.
+    + rewrite E0. split; (split; [discriminate|]).
+      * intros (T & P & S & N & _). destruct AR as [_ AR]. discriminate AR. repeat split; auto.
+      * intros (T & C & P & S & N & _). destruct AC as [_ AC]. discriminate AC. repeat split; auto.
+    + destruct AR as [AR _]. destruct (AR eq_refl) as (P & S & N & [[_ T]|[X0 _]]); [|discriminate].
+      destruct D as [B U]. cbn in U. split.
+      * split; auto. intros _. repeat split; auto; apply B.
+      * split; [discriminate|]. intros (T' & _). congruence.
+    + destruct AC as [AC _]. destruct (AC eq_refl) as (P & S & N & [[X0 _]|[_ [T C]]]); [discriminate|].
+      destruct D as [B U]. cbn in U. split.
+      * split; [discriminate|]. intros (T' & _). congruence.
+      * split; auto. intros _. repeat split; auto; apply B.
+  - assert (r_error r' = ENone) as X.
+    { destruct (K2 (or_intror (ex_intro _ w (conj eq_refl D)))) as [_ X]. rewrite X. exact E0. }
+    rewrite X. split; (split; [discriminate|]).
+    + intros (T & P & S & N & B & U). destruct AR as [_ AR].
+      assert (Some w = Some BReq) as W by (apply AR; repeat split; auto). inversion W; subst. exfalso. apply D; split; [exact B|exact U].
+    + intros (T & C & P & S & N & B & U). destruct AC as [_ AC].
+      assert (Some w = Some BCom) as W by (apply AC; repeat split; auto). inversion W; subst. exfalso. apply D; split; [exact B|exact U].
+Qed.
+
+Lemma never_both : forall tg b r,
+  r_result r = false -> r_error r = ENone ->
+  let r' := fst (parse_response_body tg b r) in
+  ~ (r_result r' = true /\ r_error r' <> ENone).
+Proof.
+  intros tg b r R0 E0 r' [A B]. pose proof (parse_binds tg b r) as [K1 K2]. fold r' in K1, K2.
+  destruct (applicable tg r) as [w|] eqn:Ap.
+  2:{ destruct (K2 (or_introl eq_refl)) as [X _]. congruence. }
+  destruct (bind_ok_dec b r w) as [D|D].
+  - destruct (K1 w eq_refl D) as [X Y]. destruct w; congruence.
+  - destruct (K2 (or_intror (ex_intro _ w (conj eq_refl D)))) as [X _]. congruence.
+Qed.
+
+(* the unmarshal function's error is what parseResponseBody returns, and nothing is bound *)
+Lemma unmarshal_failure_surfaces : forall tg b r w x,
+  applicable tg r = Some w -> body_ok b r -> um_of b w = Some x ->
+  snd (parse_response_body tg b r) = Some x /\
+  r_result (fst (parse_response_body tg b r)) = r_result r /\
+  r_error (fst (parse_response_body tg b r)) = r_error r.
+Proof.
+  intros tg b r w x A B U. destruct (parse_response_body tg b r) as [r' e] eqn:H. cbn.
+  pose proof (parse_spec _ _ _ _ _ H) as (_ & _ & _ & K). rewrite A in K. destruct K as [_ K].
+  assert (~ (body_ok b r /\ um_of b w = None)) as D by (intros [_ X]; congruence).
+  destruct (K D) as (_ & X & Y & Z). rewrite (Z B). auto.
+Qed.
+
+(* a failing body read surfaces the same way *)
+Lemma read_failure_surfaces : forall tg b r w,
+  applicable tg r = Some w -> ~ body_ok b r ->
+  snd (parse_response_body tg b r) <> None /\
+  r_result (fst (parse_response_body tg b r)) = r_result r /\
+  r_error (fst (parse_response_body tg b r)) = r_error r.
+Proof.
+  intros tg b r w A B. destruct (parse_response_body tg b r) as [r' e] eqn:H. cbn.
+  pose proof (parse_spec _ _ _ _ _ H) as (_ & _ & _ & K). rewrite A in K. destruct K as [_ K].
+  assert (~ (body_ok b r /\ um_of b w = None)) as D by (intros [X _]; contradiction).
+  destruct (K D) as (X0 & X & Y & _). auto.
+Qed.
+
+(* ====================================================================== *)
+(* the pipeline: Do / do / Send                                            *)
+(* ====================================================================== *)
+
+Lemma do_deferred_some : forall ro e, exists r, do_deferred ro e = (Some r, e).
+Proof. intros ro e. unfold do_deferred. eexists. reflexivity. Qed.
+
+(* what the deferred function guarantees: a response, and a returned error is recorded *)
+Lemma do_deferred_spec : forall ro e,
+  exists r1, do_deferred ro e = (Some r1, e) /\ (e <> None -> r_err r1 <> None) /\
+  (forall x, e = Some x -> resp_err ro = None -> r_err r1 = Some x) /\
+  (resp_err ro <> None -> r_err r1 = resp_err ro) /\
+  (e = None -> r_err r1 = resp_err ro).
+Proof.
+  intros ro e. unfold do_deferred. eexists. split; [reflexivity|].
+  destruct ro as [r0|]; cbn; destruct e as [x|]; cbn.
+  - destruct (r_err r0) eqn:E; cbn; repeat split; auto; try congruence; intros; congruence.
+  - repeat split; auto; try congruence; intros; congruence.
+  - repeat split; auto; try congruence; intros; congruence.
+  - repeat split; auto; try congruence; intros; congruence.
+Qed.
+
+Lemma do_loop_cons : forall fl cfg a rest n prev,
+  do_loop fl cfg (a :: rest) n prev =
+  match do_attempt fl cfg a n prev with
+  | (Stop ro e, l) => let '(r, e') := do_deferred ro e in DoRet r e' [l]
+  | (Again r, l) => prepend l (do_loop fl cfg rest (n + 1) (Some r))
+  end.
+Proof. reflexivity. Qed.
+
+Lemma do_loop_resp_some : forall fl cfg atts n prev ro e ls,
+  do_loop fl cfg atts n prev = DoRet ro e ls -> ro <> None.
+Proof.
+  intros fl cfg atts. induction atts as [|a rest IH]; intros n prev ro e ls H; [cbn in H; discriminate|]. rewrite do_loop_cons in H.
+  destruct (do_attempt fl cfg a n prev) as [[ro0 e0|r0] l].
+  - destruct (do_deferred_some ro0 e0) as [r1 D]. rewrite D in H. inversion H; subst. discriminate.
+  - destruct (do_loop fl cfg rest (n + 1) (Some r0)) as [ro1 e1 ls1|] eqn:L; cbn in H; [|discriminate].
+    inversion H; subst. eapply IH; eauto.
+Qed.
+
+Lemma do_call_resp_some : forall fl cfg atts ro e ls, do_call fl cfg atts = DoRet ro e ls -> ro <> None.
+Proof.
+  intros fl cfg atts ro e ls H. unfold do_call in H. destruct (c_reqerr cfg).
+  - inversion H; subst. discriminate.
+  - eapply do_loop_resp_some; eauto.
+Qed.
+
+(* A call always returns a non-nil response *)
+Lemma resp_never_nil : forall fl p ro e ls h, run fl p = Returned ro e ls h -> ro <> None.
+Proof.
+  intros fl p ro e ls h H. unfold run in H.
+  destruct (do_call fl (p_cfg p) (p_attempts p)) as [ro0 e0 ls0|] eqn:D; [|discriminate].
+  pose proof (do_call_resp_some _ _ _ _ _ _ D) as N.
+  destruct (p_entry p); [inversion H; subst; auto| |].
+  - destruct (resp_err ro0); inversion H; subst; auto.
+  - destruct (resp_err ro0); inversion H; subst; auto.
+Qed.
+
+(* ... whose recorded error equals the returned error (verb-style entry points) *)
+Lemma err_equals_resp_err : forall fl p ro e ls h,
+  run fl p = Returned ro e ls h -> p_entry p <> EDo -> e = resp_err ro.
+Proof.
+  intros fl p ro e ls h H N. unfold run in H.
+  destruct (do_call fl (p_cfg p) (p_attempts p)) as [ro0 e0 ls0|]; [|discriminate].
+  destruct (p_entry p); [contradiction| |].
+  - destruct (resp_err ro0) eqn:E; inversion H; subst; auto.
+  - destruct (resp_err ro0) eqn:E; inversion H; subst; auto.
+Qed.
+
+(* a Must-style call panics exactly with the recorded error, and returns only when there is none *)
+Lemma must_panics_with_resp_err : forall fl p,
+  p_entry p = EMust ->
+  match run fl p with
+  | Panicked x ls h => exists ro e0, do_call fl (p_cfg p) (p_attempts p) = DoRet ro e0 ls /\ resp_err ro = Some x
+  | Returned ro e ls h => e = None /\ resp_err ro = None
+  | OutOfFuel => do_call fl (p_cfg p) (p_attempts p) = DoOutOfFuel
+  end.
+Proof.
+  intros fl p M. unfold run. rewrite M.
+  destruct (do_call fl (p_cfg p) (p_attempts p)) as [ro0 e0 ls0|] eqn:D; [|reflexivity].
+  destruct (resp_err ro0) eqn:E.
+  - exists ro0, e0. auto.
+  - auto.
+Qed.
+
+(* at the Do exit: whatever error do() returned is recorded in the response *)
+Lemma do_err_recorded : forall fl cfg atts n prev ro x ls,
+  do_loop fl cfg atts n prev = DoRet ro (Some x) ls -> resp_err ro <> None.
+Proof.
+  intros fl cfg atts. induction atts as [|a rest IH]; intros n prev ro x ls H; [cbn in H; discriminate|]. rewrite do_loop_cons in H.
+  destruct (do_attempt fl cfg a n prev) as [[ro0 e0|r0] l].
+  - destruct (do_deferred_spec ro0 e0) as (r2 & D & K & _). rewrite D in H. inversion H; subst.
+    cbn. apply K. discriminate.
+  - destruct (do_loop fl cfg rest (n + 1) (Some r0)) as [ro1 e1 ls1|] eqn:L; cbn in H; [|discriminate].
+    inversion H; subst. eapply IH; eauto.
+Qed.
+
+(* the error hook: exactly once for a verb-style call that ends in error, never otherwise *)
+Definition hooks_of (o : outcome) : nat :=
+  match o with Returned _ _ _ h => h | Panicked _ _ h => h | OutOfFuel => 0%nat end.
+
+Definition ends_in_error (fl : flavour) (p : program) : bool :=
+  match do_call fl (p_cfg p) (p_attempts p) with
+  | DoRet ro _ _ => is_some (resp_err ro)
+  | DoOutOfFuel => false
+  end.
+
+Lemma on_error_exactly_once : forall fl p,
+  hooks_of (run fl p) =
+  match p_entry p with
+  | EDo => 0%nat
+  | _ => if ends_in_error fl p && c_onerror (p_cfg p) then 1%nat else 0%nat
+  end.
+Proof.
+  intros fl p. unfold run, ends_in_error.
+  destruct (do_call fl (p_cfg p) (p_attempts p)) as [ro0 e0 ls0|]; cbn.
+  - destruct (p_entry p); cbn; auto; destruct (resp_err ro0); cbn; auto.
+  - destruct (p_entry p); reflexivity.
+Qed.
+
+(* "ends in error" is the error the caller gets *)
+Lemma ends_in_error_iff : forall fl p,
+  p_entry p <> EDo ->
+  (ends_in_error fl p = true <->
+   match run fl p with
+   | Returned _ e _ _ => e <> None
+   | Panicked _ _ _ => True
+   | OutOfFuel => False
+   end).
+Proof.
+  intros fl p N. unfold run, ends_in_error.
+  destruct (do_call fl (p_cfg p) (p_attempts p)) as [ro0 e0 ls0|]; [|split; [discriminate|tauto]].
+  destruct (p_entry p); [contradiction| |]; destruct (resp_err ro0); cbn; split; auto; try discriminate; try tauto.
+  all: intro H; contradiction H; reflexivity.
+Qed.
+
+(* ---------- shape of the invocation log ---------- *)
+
+Definition is_ud (ev : event) : bool := match ev with EvUd _ => true | _ => false end.
+Definition is_cli (ev : event) : bool := match ev with EvCli _ => true | _ => false end.
+Definition is_req (ev : event) : bool := match ev with EvReq _ => true | _ => false end.
+Definition is_send (ev : event) : bool := match ev with EvSend => true | _ => false end.
+
+Lemma filter_app' : forall (f : event -> bool) l1 l2, filter f (l1 ++ l2) = filter f l1 ++ filter f l2.
+Proof. intros. apply filter_app. Qed.
+
+(* request middleware: registration order, stop at the first error *)
+Lemma run_before_spec : forall ms i e l, run_before ms i = (e, l) ->
+  exists j, l = map EvUd (seq i j) /\ (j <= length ms)%nat /\
+    (e = None -> j = length ms /\ Forall (fun m => m = None) ms) /\
+    (forall x, e = Some x -> (1 <= j)%nat /\ nth_error ms (j - 1) = Some (Some x) /\
+                             Forall (fun m => m = None) (firstn (j - 1) ms)).
+Proof.
+  induction ms as [|m rest IH]; intros i e l H; cbn in H.
+  - inversion H; subst. exists 0%nat. cbn.
+    split; [reflexivity|]. split; [lia|]. split; [auto|]. intros x Hx; discriminate.
+  - destruct m as [x|].
+    + inversion H; subst. exists 1%nat. cbn.
+      split; [reflexivity|]. split; [lia|]. split; [intro K; discriminate|].
+      intros y Hy. inversion Hy; subst. split; [lia|]. split; [reflexivity|constructor].
+    + destruct (run_before rest (S i)) as [e1 l1] eqn:R. inversion H; subst.
+      destruct (IH _ _ _ R) as (j & L & Lj & N & HS). exists (S j). cbn. subst l1.
+      split; [reflexivity|]. split; [lia|]. split.
+      * intro K. destruct (N K) as [N1 N2]. split; [congruence|constructor; auto].
+      * intros y Hy. destruct (HS _ Hy) as (J1 & J2 & J3). split; [lia|].
+        destruct j; [lia|]. cbn. replace (j - 0)%nat with j in * by lia. cbn in J2, J3.
+        replace (j - 0)%nat with j in * by lia. split; [exact J2|constructor; auto].
+Qed.
+
+Lemma receive_log_free : True. Proof. exact I. Qed.
+
+Lemma digest_log : forall fl cfg d r r1 e l, digest_mw fl cfg d r = (r1, e, l) -> l = [] \/ l = [EvSend].
+Proof.
+  intros fl cfg d r r1 e l H. unfold digest_mw in H.
+  destruct (is_some (r_err r) || negb (r_present r) || negb (r_status r =? 401)); [inversion H; auto|].
+  destruct (d_pre d); [inversion H; auto|].
+  destruct fl.
+  - destruct (receive (d_resend d) _) as [[r2 e2] b2]. destruct e2; [inversion H; auto|].
+    destruct (r_err (auto_read _ _ _ _)); [inversion H; auto|].
+    destruct (parse_response_body _ _ _). inversion H; auto.
+  - destruct (receive (d_resend d) r) as [[r2 e2] b2]. destruct e2; inversion H; auto.
+Qed.
+
+Lemma apply_mw_log : forall fl cfg m r r1 e l, apply_mw fl cfg m r = (r1, e, l) -> l = [] \/ l = [EvSend].
+Proof.
+  intros fl cfg m r r1 e l H. destruct m; cbn in H.
+  - inversion H; auto.
+  - eapply digest_log; eauto.
+Qed.
+
+(* the user functions among a middleware list, as they appear in the log *)
+Fixpoint user_evs (mk : nat -> event) (ms : list mw) (i : nat) : list event :=
+  match ms with
+  | [] => []
+  | m :: rest => mw_event (mk i) m ++ user_evs mk rest (S i)
+  end.
+
+Lemma mw_event_filter : forall f (mk : nat -> event) i m, (forall k, f (mk k) = true) -> filter f (mw_event (mk i) m) = mw_event (mk i) m.
+Proof. intros f mk i m H. destruct m; cbn; [rewrite H|]; reflexivity. Qed.
+
+Lemma mw_event_filter_out : forall f (mk : nat -> event) i m, (forall k, f (mk k) = false) -> filter f (mw_event (mk i) m) = [].
+Proof. intros f mk i m H. destruct m; cbn; [rewrite H|]; reflexivity. Qed.
+
+Lemma small_log_filter : forall f l, (l = [] \/ l = [EvSend]) -> f EvSend = false -> filter f l = [].
+Proof. intros f l [H|H] F; subst; cbn; [|rewrite F]; reflexivity. Qed.
+
+(* every client-level response middleware runs, once, in order - whatever the others returned *)
+Lemma run_cli_events : forall fl cfg ms i r r1 l, run_cli fl cfg ms i r = (r1, l) ->
+  filter is_cli l = user_evs EvCli ms i /\ filter is_ud l = [] /\ filter is_req l = [].
+Proof.
+  induction ms as [|m rest IH]; intros i r r1 l H; cbn in H.
+  - inversion H; subst. auto.
+  - destruct (apply_mw fl cfg m r) as [[r2 e] l1] eqn:A.
+    destruct (run_cli fl cfg rest (S i) _) as [r3 l3] eqn:R. inversion H; subst.
+    destruct (IH _ _ _ _ R) as (I1 & I2 & I3). pose proof (apply_mw_log _ _ _ _ _ _ _ A) as HS.
+    rewrite !filter_app'. cbn [user_evs].
+    rewrite (mw_event_filter is_cli EvCli), (mw_event_filter_out is_ud EvCli), (mw_event_filter_out is_req EvCli) by reflexivity.
+    rewrite !(small_log_filter _ l1 HS) by reflexivity. rewrite I1, I2, I3. auto.
+Qed.
+
+Lemma round_trip_events : forall fl cfg a ro e l, round_trip fl cfg a = (ro, e, l) ->
+  filter is_ud l = [] /\ filter is_req l = [] /\
+  (a_getbody a = None -> filter is_cli l = user_evs EvCli (a_cli a) 0 /\ exists l', l = EvSend :: l') /\
+  (a_getbody a <> None -> l = []).
+Proof.
+  intros fl cfg a ro e l H. unfold round_trip in H.
+  destruct (a_getbody a) as [x|].
+  { inversion H; subst. split; [reflexivity|]. split; [reflexivity|]. split; [intro K; discriminate|auto]. }
+  destruct (receive (a_transport a) fresh_resp) as [[r1 e1] b].
+  destruct (parse_response_body _ _ _) as [r4 e4].
+  destruct (run_cli fl cfg (a_cli a) 0 _) as [r6 l6] eqn:R. inversion H; subst.
+  destruct (run_cli_events _ _ _ _ _ _ _ R) as (I1 & I2 & I3). cbn.
+  split; [exact I2|]. split; [exact I3|]. split.
+  - intros _. split; [exact I1|eexists; reflexivity].
+  - intro K; contradiction.
+Qed.
+
+(* wrappers add only their own enter/leave events around the inner log - or drop it entirely *)
+Lemma run_wraps_events : forall ws i inner ro e l,
+  run_wraps ws i inner = (ro, e, l) ->
+  forall f, (forall k, f (EvWIn k) = false) -> (forall k, f (EvWOut k) = false) ->
+  (filter f l = filter f (snd inner) \/ filter f l = []) /\
+  (Forall (fun w => match w with WShort _ _ _ => False | _ => True end) ws -> filter f l = filter f (snd inner)).
+Proof.
+  induction ws as [|w rest IH]; intros i inner ro e l H f F1 F2; cbn in H.
+  - subst. cbn. auto.
+  - destruct w.
+    + destruct (run_wraps rest (pred i) inner) as [[ro1 e1] l1] eqn:R. inversion H; subst.
+      destruct (IH _ _ _ _ _ R f F1 F2) as [K1 K2]. cbn. rewrite F1, filter_app'. cbn. rewrite F2, app_nil_r.
+      split; auto. intro A. inversion A; subst. auto.
+    + inversion H; subst. cbn. rewrite F1, F2. split; auto. intro A. inversion A; subst. contradiction.
+    + destruct (run_wraps rest (pred i) inner) as [[ro1 e1] l1] eqn:R.
+      destruct (IH _ _ _ _ _ R f F1 F2) as [K1 K2].
+      assert (filter f (EvWIn i :: l1 ++ [EvWOut i]) = filter f l1) as E
+        by (cbn; rewrite F1, filter_app'; cbn; rewrite F2, app_nil_r; reflexivity).
+      destruct ret; inversion H; subst; rewrite E; (split; [auto|intro A; inversion A; subst; auto]).
+Qed.
+
+Lemma run_req_events : forall fl cfg ms i r r1 e l, run_req fl cfg ms i r = (r1, e, l) ->
+  filter is_ud l = [] /\ filter is_cli l = [] /\
+  exists k, (k <= length ms)%nat /\ filter is_req l = user_evs EvReq (firstn k ms) i /\
+    (e = None -> k = length ms) /\ (ms <> [] -> (1 <= k)%nat).
+Proof.
+  induction ms as [|m rest IH]; intros i r r1 e l H; cbn in H.
+  - inversion H; subst. split; [reflexivity|]. split; [reflexivity|]. exists 0%nat.
+    split; [cbn; lia|]. split; [reflexivity|]. split; [auto|]. intro K; contradiction.
+  - destruct (apply_mw fl cfg m r) as [[r2 e2] l2] eqn:A. pose proof (apply_mw_log _ _ _ _ _ _ _ A) as HS.
+    destruct e2 as [x|].
+    + inversion H; subst. rewrite !filter_app'.
+      rewrite (mw_event_filter is_req EvReq), (mw_event_filter_out is_ud EvReq), (mw_event_filter_out is_cli EvReq) by reflexivity.
+      rewrite !(small_log_filter _ l2 HS) by reflexivity.
+      split; [reflexivity|]. split; [reflexivity|].
+      exists 1%nat. cbn. rewrite !app_nil_r.
+      split; [lia|]. split; [reflexivity|]. split; [intro K; discriminate|]. intros _. lia.
+    + destruct (run_req fl cfg rest (S i) r2) as [[r3 e3] l3] eqn:R. inversion H; subst.
+      destruct (IH _ _ _ _ _ R) as (I1 & I2 & k & K1 & K2 & K3 & K4).
+      rewrite !filter_app'.
+      rewrite (mw_event_filter is_req EvReq), (mw_event_filter_out is_ud EvReq), (mw_event_filter_out is_cli EvReq) by reflexivity.
+      rewrite !(small_log_filter _ l2 HS) by reflexivity. rewrite I1, I2.
+      split; [reflexivity|]. split; [reflexivity|].
+      exists (S k). cbn. rewrite K2.
+      split; [lia|]. split; [reflexivity|]. split; [intro E; f_equal; auto|]. intros _. lia.
+Qed.
+
+Lemma wrapped_events : forall fl cfg a ro e l, wrapped_round_trip fl cfg a = (ro, e, l) ->
+  filter is_ud l = [] /\ filter is_req l = [] /\
+  (filter is_cli l = user_evs EvCli (a_cli a) 0 \/ filter is_cli l = []) /\
+  (Forall (fun w => match w with WShort _ _ _ => False | _ => True end) (a_wraps a) -> a_getbody a = None ->
+     filter is_cli l = user_evs EvCli (a_cli a) 0 /\ In EvSend l).
+Proof.
+  intros fl cfg a ro e l H. unfold wrapped_round_trip in H.
+  destruct (round_trip fl cfg a) as [[ro0 e0] l0] eqn:R.
+  destruct (round_trip_events _ _ _ _ _ _ R) as (R1 & R2 & R3 & R4).
+  pose proof (run_wraps_events _ _ _ _ _ _ H) as W. cbn [snd] in W.
+  destruct (W is_ud (fun _ => eq_refl) (fun _ => eq_refl)) as [[U|U] _];
+  destruct (W is_req (fun _ => eq_refl) (fun _ => eq_refl)) as [[Q|Q] _];
+  destruct (W is_cli (fun _ => eq_refl) (fun _ => eq_refl)) as [C C'];
+  destruct (W is_send (fun _ => eq_refl) (fun _ => eq_refl)) as [_ S'].
+  all: rewrite ?R1 in U; rewrite ?R2 in Q.
+  all: split; [exact U|]; split; [exact Q|]; split.
+  all: try (destruct (a_getbody a) as [x|] eqn:G;
+            [ rewrite (R4 ltac:(discriminate)) in C; cbn in C; destruct C as [C|C]; right; exact C
+            | destruct (R3 eq_refl) as [R3' _]; rewrite R3' in C; exact C ]).
+  all: intros F G; assert (Forall (fun w => match w with WShort _ _ _ => False | _ => True end) (rev (a_wraps a))) as F'
+         by (apply Forall_rev; exact F);
+       destruct (R3 G) as [R3a [l' R3b]]; split; [rewrite (C' F'); exact R3a|];
+       specialize (S' F'); rewrite R3b in S'; cbn in S';
+       assert (In EvSend (filter is_send l)) as I by (rewrite S'; left; reflexivity);
+       apply filter_In in I; apply I.
+Qed.
+
+Lemma retry_decision_events : forall cfg a n e again l, retry_decision cfg a n e = (again, l) -> l = [] \/ l = [EvCond].
+Proof.
+  intros cfg a n e again l H. unfold retry_decision in H.
+  destruct (c_retry cfg) as [[mx conds]|]; [|inversion H; auto].
+  destruct ((n >=? mx) && (mx >=? 0)); [inversion H; auto|].
+  destruct conds; inversion H; auto.
+Qed.
+
+(* Request middleware runs in registration order before the request is built and sent *)
+Lemma request_middleware_in_order_before_send : forall fl cfg a n prev st l,
+  do_attempt fl cfg a n prev = (st, l) ->
+  exists j rest,
+    l = map EvUd (seq 0 j) ++ rest /\ filter is_ud rest = [] /\ (j <= length (a_ud a))%nat /\
+    (rest <> [] -> j = length (a_ud a) /\ Forall (fun m => m = None) (a_ud a) /\ a_bi a = None) /\
+    (forall x, fst (run_before (a_ud a) 0) = Some x ->
+       nth_error (a_ud a) (j - 1) = Some (Some x) /\ Forall (fun m => m = None) (firstn (j - 1) (a_ud a)) /\
+       rest = [] /\ st = Stop prev (Some x)).
+Proof.
+  intros fl cfg a n prev st l H. unfold do_attempt in H.
+  destruct (run_before (a_ud a) 0) as [e_ud l_ud] eqn:B.
+  destruct (run_before_spec _ _ _ _ B) as (j & L & Lj & N & HS). cbn [fst].
+  destruct e_ud as [x|].
+  { inversion H; subst. exists j, []. rewrite app_nil_r.
+    split; [reflexivity|]. split; [reflexivity|]. split; [exact Lj|]. split; [intro K; contradiction|].
+    intros y Hy. inversion Hy; subst. destruct (HS _ eq_refl) as (_ & J2 & J3). auto. }
+  destruct (N eq_refl) as [N1 N2].
+  destruct (a_bi a) as [x|] eqn:Bi.
+  { inversion H; subst. exists (length (a_ud a)), []. rewrite app_nil_r.
+    split; [reflexivity|]. split; [reflexivity|]. split; [lia|]. split; [intro K; contradiction|].
+    intros y Hy. discriminate. }
+  destruct (wrapped_round_trip fl cfg a) as [[ro e] l_rt] eqn:W.
+  destruct (wrapped_events _ _ _ _ _ _ W) as (W1 & _).
+  destruct (run_req fl cfg (a_req a) 0 (normalise ro e)) as [[r2 e_mw] l_req] eqn:Q.
+  destruct (run_req_events _ _ _ _ _ _ _ _ Q) as (Q1 & _).
+  assert (forall tail, filter is_ud tail = [] -> filter is_ud ((l_rt ++ l_req) ++ tail) = []) as K.
+  { intros tail T. rewrite !filter_app', W1, Q1, T. reflexivity. }
+  destruct e_mw as [x|].
+  { inversion H; subst. exists (length (a_ud a)), (l_rt ++ l_req).
+    split; [reflexivity|]. split; [rewrite <- (app_nil_r (l_rt ++ l_req)); apply K; reflexivity|].
+    split; [lia|]. split; [auto|]. intros y Hy; discriminate. }
+  destruct (retry_decision cfg a n e) as [again l_c] eqn:D.
+  pose proof (retry_decision_events _ _ _ _ _ _ D) as Dl.
+  assert (filter is_ud l_c = []) as Dc by (destruct Dl; subst; reflexivity).
+  destruct again; inversion H; subst.
+  - exists (length (a_ud a)), ((l_rt ++ l_req) ++ l_c ++ [EvHook]).
+    split; [rewrite <- !app_assoc; reflexivity|]. split; [apply K; rewrite filter_app', Dc; reflexivity|].
+    split; [lia|]. split; [auto|]. intros y Hy; discriminate.
+  - exists (length (a_ud a)), ((l_rt ++ l_req) ++ l_c).
+    split; [rewrite <- !app_assoc; reflexivity|]. split; [apply K; exact Dc|].
+    split; [lia|]. split; [auto|]. intros y Hy; discriminate.
+Qed.
+
+(* response middleware runs after every attempt *)
+Lemma response_middleware_after_every_attempt : forall fl cfg a n prev st l,
+  do_attempt fl cfg a n prev = (st, l) ->
+  fst (run_before (a_ud a) 0) = None -> a_bi a = None ->
+  (exists k, (k <= length (a_req a))%nat /\ filter is_req l = user_evs EvReq (firstn k (a_req a)) 0 /\
+      (a_req a <> [] -> (1 <= k)%nat) /\
+      (k < length (a_req a) -> exists ro x, st = Stop ro (Some x)))%nat /\
+  (Forall (fun w => match w with WShort _ _ _ => False | _ => True end) (a_wraps a) -> a_getbody a = None ->
+      filter is_cli l = user_evs EvCli (a_cli a) 0 /\ In EvSend l) /\
+  (filter is_cli l = user_evs EvCli (a_cli a) 0 \/ filter is_cli l = []).
+Proof.
+  intros fl cfg a n prev st l H B0 Bi. unfold do_attempt in H.
+  destruct (run_before (a_ud a) 0) as [e_ud l_ud] eqn:B. cbn in B0. subst e_ud. rewrite Bi in H.
+  destruct (run_before_spec _ _ _ _ B) as (j & L & _).
+  assert (filter is_req l_ud = [] /\ filter is_cli l_ud = []) as [Ur Uc].
+  { subst l_ud. clear. generalize 0%nat. induction j; intro s; cbn; auto. }
+  destruct (wrapped_round_trip fl cfg a) as [[ro e] l_rt] eqn:W.
+  destruct (wrapped_events _ _ _ _ _ _ W) as (_ & W2 & W3 & W4).
+  destruct (run_req fl cfg (a_req a) 0 (normalise ro e)) as [[r2 e_mw] l_req] eqn:Q.
+  destruct (run_req_events _ _ _ _ _ _ _ _ Q) as (_ & Q2 & k & K1 & K2 & K3 & K4).
+  assert (forall tail, filter is_req tail = [] -> filter is_cli tail = [] ->
+            filter is_req (l_ud ++ l_rt ++ l_req ++ tail) = user_evs EvReq (firstn k (a_req a)) 0 /\
+            filter is_cli (l_ud ++ l_rt ++ l_req ++ tail) = filter is_cli l_rt /\
+            (In EvSend l_rt -> In EvSend (l_ud ++ l_rt ++ l_req ++ tail))) as K.
+  { intros tail T1 T2. rewrite !filter_app', Ur, Uc, W2, K2, Q2, T1, T2, !app_nil_r. cbn.
+    split; [reflexivity|]. split; [reflexivity|]. intro I. apply in_or_app. right. apply in_or_app. left. exact I. }
+  destruct e_mw as [x|].
+  { inversion H; subst. destruct (K [] eq_refl eq_refl) as (A1 & A2 & A3). rewrite !app_nil_r in *.
+    split.
+    - exists k. split; [exact K1|]. split; [exact A1|]. split; [exact K4|]. intros _. eauto.
+    - rewrite A2. split; [|exact W3]. intros F G. destruct (W4 F G) as [X Y]. split; [exact X|apply A3; exact Y]. }
+  destruct (retry_decision cfg a n e) as [again l_c] eqn:D.
+  pose proof (retry_decision_events _ _ _ _ _ _ D) as Dl.
+  assert (filter is_req l_c = [] /\ filter is_cli l_c = []) as [Dr Dc] by (destruct Dl; subst; auto).
+  destruct again; inversion H; subst.
+  - destruct (K (l_c ++ [EvHook])) as (A1 & A2 & A3); [rewrite filter_app', Dr; reflexivity|rewrite filter_app', Dc; reflexivity|].
+    rewrite <- !app_assoc in *. split.
+    + exists k. split; [exact K1|]. split; [exact A1|]. split; [exact K4|]. intro X. specialize (K3 eq_refl). lia.
+    + rewrite A2. split; [|exact W3]. intros F G. destruct (W4 F G) as [X Y]. split; [exact X|apply A3; exact Y].
+  - destruct (K l_c Dr Dc) as (A1 & A2 & A3). rewrite <- !app_assoc in *. split.
+    + exists k. split; [exact K1|]. split; [exact A1|]. split; [exact K4|]. intro X. specialize (K3 eq_refl). lia.
+    + rewrite A2. split; [|exact W3]. intros F G. destruct (W4 F G) as [X Y]. split; [exact X|apply A3; exact Y].
+Qed.
+
+(* the logs of do() are, one by one, the logs of the iterations that ran *)
+Lemma do_loop_logs : forall fl cfg atts n prev ro e ls,
+  do_loop fl cfg atts n prev = DoRet ro e ls ->
+  (1 <= length ls <= length atts)%nat /\
+  forall k l, nth_error ls k = Some l ->
+    exists a prev', nth_error atts k = Some a /\ snd (do_attempt fl cfg a (n + Z.of_nat k) prev') = l.
+Proof.
+  intros fl cfg atts. induction atts as [|a rest IH]; intros n prev ro e ls H; [cbn in H; discriminate|].
+  rewrite do_loop_cons in H.
+  destruct (do_attempt fl cfg a n prev) as [[ro0 e0|r0] l0] eqn:A.
+  - destruct (do_deferred_spec ro0 e0) as (r1 & D & _). rewrite D in H. inversion H; subst. cbn. split; [lia|].
+    intros k l K. destruct k; cbn in K; [|destruct k; discriminate]. inversion K; subst.
+    exists a, prev. split; [reflexivity|]. replace (n + Z.of_nat 0) with n by lia. rewrite A. reflexivity.
+  - destruct (do_loop fl cfg rest (n + 1) (Some r0)) as [ro1 e1 ls1|] eqn:L; cbn in H; [|discriminate].
+    inversion H; subst. destruct (IH _ _ _ _ _ L) as [Len K]. cbn. split; [lia|].
+    intros k l Hk. destruct k; cbn in Hk.
+    + inversion Hk; subst. exists a, prev. split; [reflexivity|]. replace (n + Z.of_nat 0) with n by lia. rewrite A. reflexivity.
+    + destruct (K _ _ Hk) as (a' & prev' & N1 & N2). exists a', prev'. split; [exact N1|].
+      replace (n + Z.of_nat (S k)) with (n + 1 + Z.of_nat k) by lia. exact N2.
+Qed.
+
+(* fuel: with a non-negative MaxRetries, MaxRetries+1 attempt scripts always suffice *)
+Lemma do_attempt_again_bound : forall fl cfg a n prev r l,
+  do_attempt fl cfg a n prev = (Again r, l) ->
+  exists mx conds, c_retry cfg = Some (mx, conds) /\ (n < mx \/ mx < 0).
+Proof.
+  intros fl cfg a n prev r l H. unfold do_attempt in H.
+  destruct (run_before (a_ud a) 0) as [[x|] l_ud]; [discriminate|].
+  destruct (a_bi a); [discriminate|].
+  destruct (wrapped_round_trip fl cfg a) as [[ro e] l_rt].
+  destruct (run_req fl cfg (a_req a) 0 (normalise ro e)) as [[r2 [x|]] l_req]; [discriminate|].
+  destruct (retry_decision cfg a n e) as [again l_c] eqn:D.
+  destruct again; [|discriminate]. unfold retry_decision in D.
+  destruct (c_retry cfg) as [[mx conds]|]; [|discriminate].
+  exists mx, conds. split; [reflexivity|].
+  destruct ((n >=? mx) && (mx >=? 0)) eqn:G; [discriminate|]. lia.
+Qed.
+
+Lemma fuel_suffices : forall fl cfg atts n prev mx conds,
+  c_retry cfg = Some (mx, conds) -> 0 <= mx -> 0 <= n -> (Z.to_nat (mx - n) < length atts)%nat ->
+  do_loop fl cfg atts n prev <> DoOutOfFuel.
+Proof.
+  intros fl cfg atts. induction atts as [|a rest IH]; intros n prev mx conds C M N L; [cbn in L; lia|].
+  rewrite do_loop_cons.
+  destruct (do_attempt fl cfg a n prev) as [[ro0 e0|r0] l0] eqn:A.
+  - destruct (do_deferred_spec ro0 e0) as (r1 & D & _). rewrite D. discriminate.
+  - destruct (do_attempt_again_bound _ _ _ _ _ _ _ A) as (mx' & conds' & C' & B). rewrite C in C'. inversion C'; subst.
+    assert (do_loop fl cfg rest (n + 1) (Some r0) <> DoOutOfFuel) as K.
+    { apply (IH _ _ mx' conds'); auto; try lia. cbn in L. lia. }
+    destruct (do_loop fl cfg rest (n + 1) (Some r0)); [discriminate|contradiction].
+Qed.
+
+Lemma fuel_suffices_no_retry : forall fl cfg a rest n prev,
+  c_retry cfg = None -> do_loop fl cfg (a :: rest) n prev <> DoOutOfFuel.
+Proof.
+  intros fl cfg a rest n prev C. rewrite do_loop_cons.
+  destruct (do_attempt fl cfg a n prev) as [[ro0 e0|r0] l0] eqn:A.
+  - destruct (do_deferred_spec ro0 e0) as (r1 & D & _). rewrite D. discriminate.
+  - destruct (do_attempt_again_bound _ _ _ _ _ _ _ A) as (mx' & conds' & C' & B). congruence.
+Qed.
+
+(* ---------- which error the caller sees ---------- *)
+
+Definition is_user (m : mw) : Prop := match m with Mw _ _ => True | MwDigest _ => False end.
+
+(* the error a user middleware raises: the one it returns, else the one it assigned *)
+Definition mw_raises (m : mw) : option err :=
+  match m with
+  | Mw s t => match t with Some e => Some e | None => s end
+  | MwDigest _ => None
+  end.
+
+(* client level: every middleware runs; the LAST one that raises decides *)
+Definition last_wins (base : option err) (ms : list mw) : option err :=
+  fold_left (fun acc m => match mw_raises m with Some e => Some e | None => acc end) ms base.
+
+Lemma run_cli_user : forall fl cfg ms i r, Forall is_user ms ->
+  let r' := fst (run_cli fl cfg ms i r) in
+  r_err r' = last_wins (r_err r) ms /\
+  r_present r' = r_present r /\ r_status r' = r_status r /\ r_chk r' = r_chk r /\
+  r_cached r' = r_cached r /\ r_result r' = r_result r /\ r_error r' = r_error r.
+Proof.
+  induction ms as [|m rest IH]; intros i r F; cbn.
+  - repeat split; reflexivity.
+  - inversion F as [|m' rest' Fm Frest]; subst. destruct m as [s t|d]; [|contradiction]. cbn.
+    destruct (run_cli fl cfg rest (S i) _) as [r3 l3] eqn:R.
+    specialize (IH (S i) (match t with Some x => set_err (Some x) (match s with Some e => set_err (Some e) r | None => r end)
+                                     | None => (match s with Some e => set_err (Some e) r | None => r end) end) Frest).
+    rewrite R in IH. cbn in IH. cbn. destruct IH as (I1 & I2 & I3 & I4 & I5 & I6 & I7).
+    rewrite I1, I2, I3, I4, I5, I6, I7. unfold last_wins. cbn.
+    destruct t as [x|]; destruct s as [y|]; cbn; repeat split; reflexivity.
+Qed.
+
+(* the digest middleware and every user middleware keep a recorded error recorded *)
+Lemma apply_mw_sticky : forall fl cfg m r r1 e l, apply_mw fl cfg m r = (r1, e, l) ->
+  r_err r <> None -> r_err r1 <> None.
+Proof.
+  intros fl cfg m r r1 e l H N. destruct m as [s t|d]; cbn in H.
+  - inversion H; subst. destruct s; cbn; [discriminate|exact N].
+  - unfold digest_mw in H. destruct (r_err r) eqn:E; [|contradiction]. cbn in H. inversion H; subst. rewrite E. discriminate.
+Qed.
+
+Lemma run_cli_sticky : forall fl cfg ms i r, r_err r <> None -> r_err (fst (run_cli fl cfg ms i r)) <> None.
+Proof.
+  induction ms as [|m rest IH]; intros i r N; cbn; [exact N|].
+  destruct (apply_mw fl cfg m r) as [[r1 e] l1] eqn:A.
+  pose proof (apply_mw_sticky _ _ _ _ _ _ _ A N) as N1.
+  destruct (run_cli fl cfg rest (S i) _) as [r3 l3] eqn:R. cbn.
+  assert (r3 = fst (run_cli fl cfg rest (S i) (match e with Some x => set_err (Some x) r1 | None => r1 end))) as E by (rewrite R; reflexivity).
+  rewrite E. apply IH. destruct e; cbn; [discriminate|exact N1].
+Qed.
+
+Lemma run_req_sticky : forall fl cfg ms i r, r_err r <> None ->
+  r_err (fst (fst (run_req fl cfg ms i r))) <> None.
+Proof.
+  induction ms as [|m rest IH]; intros i r N; cbn; [exact N|].
+  destruct (apply_mw fl cfg m r) as [[r1 e] l1] eqn:A.
+  pose proof (apply_mw_sticky _ _ _ _ _ _ _ A N) as N1.
+  destruct e; cbn; [exact N1|].
+  destruct (run_req fl cfg rest (S i) r1) as [[r2 e2] l2] eqn:R. cbn.
+  assert (r2 = fst (fst (run_req fl cfg rest (S i) r1))) as E by (rewrite R; reflexivity).
+  rewrite E. apply IH. exact N1.
+Qed.
+
+(* Client.roundTrip: the returned error IS the recorded error, and a response is always returned *)
+Lemma round_trip_err_eq : forall fl cfg a ro e l, round_trip fl cfg a = (ro, e, l) ->
+  exists r, ro = Some r /\ e = r_err r.
+Proof.
+  intros fl cfg a ro e l H. unfold round_trip in H. destruct (a_getbody a).
+  - inversion H; subst. eexists; split; reflexivity.
+  - destruct (receive (a_transport a) fresh_resp) as [[r1 e1] b].
+    destruct (parse_response_body _ _ _) as [r4 e4].
+    destruct (run_cli fl cfg (a_cli a) 0 _) as [r6 l6]. inversion H; subst. eexists; split; reflexivity.
+Qed.
+
+(* a transport failure, a failing GetBody: seen unless a later client-level middleware raises *)
+Lemma transport_error_is_seen : forall fl cfg a x, a_getbody a = None -> a_transport a = TFail x ->
+  Forall is_user (a_cli a) ->
+  exists r l, round_trip fl cfg a = (Some r, r_err r, l) /\ r_err r = last_wins (Some x) (a_cli a) /\ r_present r = false.
+Proof.
+  intros fl cfg a x G T F. unfold round_trip. rewrite G, T. cbn.
+  destruct (run_cli fl cfg (a_cli a) 0 _) as [r6 l6] eqn:R.
+  match type of R with run_cli _ _ _ _ ?rr = _ => pose proof (run_cli_user fl cfg (a_cli a) 0 rr F) as K end. rewrite R in K. cbn in K. destruct K as (K1 & K2 & _).
+  exists r6, (EvSend :: l6). split; [reflexivity|]. split; [exact K1|exact K2].
+Qed.
+
+Lemma getbody_error_is_seen : forall fl cfg a x, a_getbody a = Some x ->
+  exists r, round_trip fl cfg a = (Some r, Some x, []) /\ r_err r = Some x.
+Proof. intros fl cfg a x G. unfold round_trip. rewrite G. eexists. split; reflexivity. Qed.
+
+(* an unmarshalling failure surfaces as the round trip's error (unless a later middleware raises) *)
+Lemma unmarshal_error_is_seen : forall fl cfg a s chk b w x,
+  a_getbody a = None -> a_transport a = TResp s chk b -> Forall is_user (a_cli a) ->
+  b_read b = None ->
+  applicable (c_targets cfg) (mkResp true s chk None false false ENone) = Some w -> um_of b w = Some x ->
+  exists r l, round_trip fl cfg a = (Some r, r_err r, l) /\ r_err r = last_wins (Some x) (a_cli a) /\
+              r_result r = false /\ r_error r = ENone.
+Proof.
+  intros fl cfg a s chk b w x G T F Rd A U. unfold round_trip. rewrite G, T. cbn [receive].
+  set (r2 := mkResp true s chk None false false ENone) in *.
+  change (set_err None (set_http true s chk fresh_resp)) with r2.
+  set (r3 := auto_read (c_autoread cfg) autoread_status_ok b r2).
+  assert (r_err r3 = None /\ r_present r3 = true /\ r_status r3 = s /\ r_chk r3 = chk /\ r_result r3 = false /\ r_error r3 = ENone) as (E3 & P3 & S3 & C3 & R3 & Er3).
+  { unfold r3, auto_read. destruct (negb (is_some (r_err r2)) && c_autoread cfg && autoread_status_ok (r_status r2)).
+    - unfold to_bytes. cbn. rewrite Rd. cbn. repeat split; reflexivity.
+    - cbn. repeat split; reflexivity. }
+  assert (applicable (c_targets cfg) r3 = Some w) as A3.
+  { unfold applicable in *. unfold result_state in *. rewrite P3, S3, C3. exact A. }
+  assert (body_ok b r3) as B3 by (split; [exact E3|right; exact Rd]).
+  destruct (unmarshal_failure_surfaces _ _ _ _ _ A3 B3 U) as (X1 & X2 & X3).
+  destruct (parse_response_body (c_targets cfg) b r3) as [r4 e4] eqn:Pq. cbn in X1, X2, X3. subst e4.
+  destruct (run_cli fl cfg (a_cli a) 0 (set_err (Some x) r4)) as [r6 l6] eqn:R.
+  match type of R with run_cli _ _ _ _ ?rr = _ => pose proof (run_cli_user fl cfg (a_cli a) 0 rr F) as K end. rewrite R in K. cbn in K.
+  destruct K as (K1 & _ & _ & _ & _ & K6 & K7).
+  exists r6, (EvSend :: l6). split; [reflexivity|]. split; [exact K1|]. rewrite K6, K7, X2, X3. auto.
+Qed.
+
+(* wrapping round-trippers: applied in registration order from the inside out - the last
+   registered is the outermost and has the last word on what do() receives *)
+Definition wrap_step (acc : option response * option err) (w : wrap) : option response * option err :=
+  match w with
+  | WPass => acc
+  | WShort nilresp s t => ((if nilresp then None else Some (set_err s fresh_resp)), t)
+  | WPost s t =>
+    let ro1 := opt_set s (fst acc) in
+    match t with
+    | RKeep => (ro1, snd acc)
+    | RErr x => (ro1, Some x)
+    | RNil => (ro1, None)
+    | RDrop x => (None, x)
+    end
+  end.
+
+Lemma run_wraps_fold : forall ws i inner,
+  fst (run_wraps ws i inner) = fold_right (fun w acc => wrap_step acc w) (fst inner) ws.
+Proof.
+  induction ws as [|w rest IH]; intros i inner; cbn; [reflexivity|].
+  destruct w.
+  - destruct (run_wraps rest (pred i) inner) as [[ro e] l] eqn:R. cbn.
+    rewrite <- (IH (pred i) inner), R. reflexivity.
+  - reflexivity.
+  - destruct (run_wraps rest (pred i) inner) as [[ro e] l] eqn:R.
+    rewrite <- (IH (pred i) inner), R. destruct ret; reflexivity.
+Qed.
+
+Lemma wrapped_result_fold : forall fl cfg a,
+  fst (wrapped_round_trip fl cfg a) = fold_left wrap_step (a_wraps a) (fst (round_trip fl cfg a)).
+Proof.
+  intros fl cfg a. unfold wrapped_round_trip. rewrite run_wraps_fold, fold_left_rev_right. reflexivity.
+Qed.
+
+(* what do() keeps of (resp, err): a recorded error wins over the returned one *)
+Lemma normalise_err : forall ro e,
+  r_err (normalise ro e) = match resp_err ro with Some y => Some y | None => e end.
+Proof.
+  intros ro e. unfold normalise, resp_err. destruct ro as [r|]; cbn.
+  - destruct e as [x|]; destruct (r_err r) eqn:E; cbn; auto.
+  - destruct e; reflexivity.
+Qed.
+
+Lemma wrappers_all_pass : forall fl cfg a, Forall (fun w => w = WPass) (a_wraps a) ->
+  fst (wrapped_round_trip fl cfg a) = fst (round_trip fl cfg a).
+Proof.
+  intros fl cfg a F. rewrite wrapped_result_fold. generalize (fst (round_trip fl cfg a)).
+  induction F as [|w ws Hw F IH]; intro acc; cbn; [reflexivity|]. subst w. cbn. apply IH.
+Qed.
+
+(* request level: the middleware run in order; assignments to resp.Err accumulate (the later
+   one stands), the FIRST returned error ends the call *)
+Fixpoint req_outcome (ms : list mw) (cur : option err) : option err * option err :=
+  match ms with
+  | [] => (cur, None)
+  | Mw s t :: rest =>
+    let cur' := match s with Some e => Some e | None => cur end in
+    match t with
+    | Some x => (cur', Some x)
+    | None => req_outcome rest cur'
+    end
+  | MwDigest _ :: rest => req_outcome rest cur
+  end.
+
+Lemma run_req_user : forall fl cfg ms i r, Forall is_user ms ->
+  let '(r2, e, _) := run_req fl cfg ms i r in
+  (r_err r2, e) = req_outcome ms (r_err r) /\
+  r_present r2 = r_present r /\ r_status r2 = r_status r /\ r_result r2 = r_result r /\ r_error r2 = r_error r.
+Proof.
+  induction ms as [|m rest IH]; intros i r F; cbn.
+  - repeat split; reflexivity.
+  - inversion F as [|m' rest' Fm Frest]; subst. destruct m as [s t|d]; [|contradiction]. cbn.
+    destruct t as [x|].
+    + destruct s; cbn; repeat split; reflexivity.
+    + specialize (IH (S i) (match s with Some e => set_err (Some e) r | None => r end) Frest).
+      destruct (run_req fl cfg rest (S i) _) as [[r2 e2] l2]. destruct IH as (I1 & I2 & I3 & I4 & I5).
+      rewrite I1, I2, I3, I4, I5. destruct s; cbn; repeat split; reflexivity.
+Qed.
+
+(* a failing request middleware / built-in request stage: nothing is sent, and its error is what
+   the caller sees (on a first iteration; after a retry the previous response is still in hand
+   and a recorded error on it stands) *)
+Lemma before_error_is_seen : forall fl cfg a rest n prev x,
+  fst (run_before (a_ud a) 0) = Some x \/ (fst (run_before (a_ud a) 0) = None /\ a_bi a = Some x) ->
+  exists r l, do_loop fl cfg (a :: rest) n prev = DoRet (Some r) (Some x) [l] /\
+    r_err r = (match resp_err prev with Some y => Some y | None => Some x end) /\
+    filter is_send l = [] /\ filter is_cli l = [] /\ filter is_req l = [].
+Proof.
+  intros fl cfg a rest n prev x H. rewrite do_loop_cons. unfold do_attempt.
+  destruct (run_before (a_ud a) 0) as [e_ud l_ud] eqn:B. cbn in H.
+  destruct (run_before_spec _ _ _ _ B) as (j & L & _).
+  assert (filter is_send l_ud = [] /\ filter is_cli l_ud = [] /\ filter is_req l_ud = []) as (F1 & F2 & F3).
+  { subst l_ud. clear. generalize 0%nat. induction j; intro s; cbn; auto. }
+  assert (forall ro, exists r, do_deferred ro (Some x) = (Some r, Some x) /\
+            r_err r = match resp_err ro with Some y => Some y | None => Some x end) as K.
+  { intro ro. destruct (do_deferred_spec ro (Some x)) as (r1 & D & _ & K2 & K3 & _). exists r1. split; [exact D|].
+    destruct (resp_err ro) eqn:E; [rewrite K3; [reflexivity|discriminate]|apply K2; auto]. }
+  destruct H as [H|[H1 H2]].
+  - subst e_ud. destruct (K prev) as (r & D & E). rewrite D. exists r, l_ud. auto.
+  - subst e_ud. rewrite H2. destruct (K prev) as (r & D & E). rewrite D. exists r, l_ud. auto.
+Qed.
+
+(* once recorded after the round trip, an error is never lost: whatever the request-level
+   middleware do and whether or not the call is retried, an iteration that returns hands the
+   caller a response with Err set *)
+Lemma attempt_error_kept : forall fl cfg a n prev ro e l,
+  do_attempt fl cfg a n prev = (Stop ro e, l) ->
+  fst (run_before (a_ud a) 0) = None -> a_bi a = None ->
+  (let '(ro0, e0, _) := wrapped_round_trip fl cfg a in resp_err ro0 <> None \/ e0 <> None) \/ e <> None ->
+  exists r, fst (do_deferred ro e) = Some r /\ r_err r <> None.
+Proof.
+  intros fl cfg a n prev ro e l H B0 Bi K. unfold do_attempt in H.
+  destruct (run_before (a_ud a) 0) as [e_ud l_ud]. cbn in B0. subst e_ud. rewrite Bi in H.
+  destruct (wrapped_round_trip fl cfg a) as [[ro0 e0] l_rt].
+  destruct (run_req fl cfg (a_req a) 0 (normalise ro0 e0)) as [[r2 e_mw] l_req] eqn:Q.
+  assert (r_err (normalise ro0 e0) <> None -> r_err r2 <> None) as St.
+  { intro N. pose proof (run_req_sticky fl cfg (a_req a) 0 _ N) as X. rewrite Q in X. exact X. }
+  destruct (do_deferred_spec ro e) as (r1 & D & D1 & _ & D3 & _). rewrite D. cbn. exists r1. split; [reflexivity|].
+  destruct K as [K|K]; [|apply D1; exact K].
+  assert (r_err (normalise ro0 e0) <> None) as N.
+  { rewrite normalise_err. destruct (resp_err ro0); [discriminate|]. destruct K as [K|K]; [contradiction|exact K]. }
+  specialize (St N).
+  destruct e_mw as [x|].
+  - inversion H; subst. rewrite D3; cbn; exact St.
+  - destruct (retry_decision cfg a n e0) as [again l_c]. destruct again; inversion H; subst. rewrite D3; cbn; exact St.
+Qed.
+
+(* ---------- binding at the level of one round trip and of a whole pass-through call ---------- *)
+
+(* with user functions as client-level middleware, what Client.roundTrip hands back carries
+   exactly the bindings of ONE parseResponseBody step on the (auto-read) transport answer *)
+Lemma round_trip_binding : forall fl cfg a r e l s chk b,
+  round_trip fl cfg a = (Some r, e, l) -> Forall is_user (a_cli a) ->
+  a_getbody a = None -> a_transport a = TResp s chk b ->
+  let r3 := auto_read (c_autoread cfg) autoread_status_ok b (mkResp true s chk None false false ENone) in
+  r_result r3 = false /\ r_error r3 = ENone /\ r_present r3 = true /\ r_status r3 = s /\ r_chk r3 = chk /\
+  r_result r = r_result (fst (parse_response_body (c_targets cfg) b r3)) /\
+  r_error r = r_error (fst (parse_response_body (c_targets cfg) b r3)) /\
+  r_present r = true /\ r_status r = s.
+Proof.
+  intros fl cfg a r e l s chk b H F G T. unfold round_trip in H. rewrite G, T in H. cbn [receive] in H.
+  change (set_err None (set_http true s chk fresh_resp)) with (mkResp true s chk None false false ENone) in H.
+  intro r3. fold r3 in H.
+  assert (r_result r3 = false /\ r_error r3 = ENone /\ r_present r3 = true /\ r_status r3 = s /\ r_chk r3 = chk) as (R3 & E3 & P3 & S3 & C3).
+  { unfold r3, auto_read. destruct (_ && _ && _); [|cbn; auto].
+    destruct (to_bytes b (mkResp true s chk None false false ENone)) as [rr ee] eqn:TB.
+    destruct (to_bytes_frame _ _ _ _ TB) as (X1 & X2 & X3 & X & Y & _). cbn. rewrite X1, X2, X3, X, Y. auto. }
+  destruct (parse_response_body (c_targets cfg) b r3) as [r4 e4] eqn:Pq.
+  destruct (parse_spec _ _ _ _ _ Pq) as (P4 & S4 & _).
+  destruct (run_cli fl cfg (a_cli a) 0 _) as [r6 l6] eqn:R.
+  match type of R with run_cli _ _ _ _ ?rr = _ => pose proof (run_cli_user fl cfg (a_cli a) 0 rr F) as K end.
+  rewrite R in K. cbn in K. destruct K as (_ & K2 & K3 & _ & _ & K6 & K7). injection H as Hr He Hl. subst r6.
+  cbn [fst]. rewrite K2, K3, K6, K7.
+  split; [exact R3|]. split; [exact E3|]. split; [exact P3|]. split; [exact S3|]. split; [exact C3|].
+  destruct e4; cbn; rewrite P4, S4, P3, S3; auto.
+Qed.
+
+Lemma round_trip_no_binding : forall fl cfg a r e l,
+  round_trip fl cfg a = (Some r, e, l) -> Forall is_user (a_cli a) ->
+  (a_getbody a <> None \/ exists x, a_transport a = TFail x) ->
+  r_result r = false /\ r_error r = ENone /\ r_present r = false /\ r_err r <> None.
+Proof.
+  intros fl cfg a r e l H F K. unfold round_trip in H.
+  destruct (a_getbody a) as [x|] eqn:G.
+  { inversion H; subst. cbn. repeat split; auto. discriminate. }
+  destruct K as [K|[x T]]; [contradiction|]. rewrite T in H. cbn in H.
+  destruct (run_cli fl cfg (a_cli a) 0 _) as [r6 l6] eqn:R.
+  match type of R with run_cli _ _ _ _ ?rr = _ => pose proof (run_cli_user fl cfg (a_cli a) 0 rr F) as K;
+                                                    pose proof (run_cli_sticky fl cfg (a_cli a) 0 rr) as St end.
+  rewrite R in K, St. cbn in K, St. destruct K as (_ & K2 & _ & _ & _ & K6 & K7). inversion H; subst.
+  rewrite K2, K6, K7. repeat split; auto. apply St. discriminate.
+Qed.
+
+Lemma normalise_frame : forall r e,
+  let r' := normalise (Some r) e in
+  r_present r' = r_present r /\ r_status r' = r_status r /\ r_result r' = r_result r /\ r_error r' = r_error r.
+Proof. intros r e. unfold normalise. destruct e; destruct (r_err r); cbn; auto. Qed.
+
+Lemma do_deferred_frame : forall r e, exists r',
+  do_deferred (Some r) e = (Some r', e) /\
+  r_present r' = r_present r /\ r_status r' = r_status r /\ r_result r' = r_result r /\ r_error r' = r_error r.
+Proof. intros r e. unfold do_deferred. eexists. split; [reflexivity|]. destruct e; destruct (r_err r); cbn; auto. Qed.
+
+(* a whole call without retry whose wrappers pass through and whose request-level middleware
+   are user functions: the caller's response carries the bindings of the round trip *)
+Lemma call_binding_passthrough : forall fl cfg a rest n prev r0 e0 l0,
+  c_retry cfg = None ->
+  fst (run_before (a_ud a) 0) = None -> a_bi a = None ->
+  Forall (fun w => w = WPass) (a_wraps a) -> Forall is_user (a_req a) ->
+  round_trip fl cfg a = (Some r0, e0, l0) ->
+  exists r e ls, do_loop fl cfg (a :: rest) n prev = DoRet (Some r) e ls /\
+    r_result r = r_result r0 /\ r_error r = r_error r0 /\ r_present r = r_present r0 /\ r_status r = r_status r0.
+Proof.
+  intros fl cfg a rest n prev r0 e0 l0 C B0 Bi W Q R. rewrite do_loop_cons. unfold do_attempt.
+  destruct (run_before (a_ud a) 0) as [e_ud l_ud]. cbn in B0. subst e_ud. rewrite Bi.
+  pose proof (wrappers_all_pass fl cfg a W) as WP. rewrite R in WP. cbn in WP.
+  destruct (wrapped_round_trip fl cfg a) as [[ro e] l_rt]. cbn in WP. inversion WP; subst.
+  destruct (normalise_frame r0 e0) as (N1 & N2 & N3 & N4).
+  pose proof (run_req_user fl cfg (a_req a) 0 (normalise (Some r0) e0) Q) as U.
+  destruct (run_req fl cfg (a_req a) 0 (normalise (Some r0) e0)) as [[r2 e_mw] l_req].
+  destruct U as (_ & U2 & U3 & U4 & U5).
+  unfold retry_decision. rewrite C.
+  destruct e_mw as [x|].
+  - destruct (do_deferred_frame r2 (Some x)) as (r' & D & D1 & D2 & D3 & D4). rewrite D.
+    exists r', (Some x), [l_ud ++ l_rt ++ l_req]. split; [reflexivity|]. rewrite D1, D2, D3, D4, U2, U3, U4, U5. auto.
+  - destruct (do_deferred_frame r2 e0) as (r' & D & D1 & D2 & D3 & D4). rewrite D.
+    exists r', e0, [(l_ud ++ l_rt ++ l_req) ++ []]. split; [reflexivity|]. rewrite D1, D2, D3, D4, U2, U3, U4, U5. auto.
+Qed.
+
+(* ---------- the pinned code: what the two C18 fixes repair ---------- *)
+
+(* digest: after a successful re-send the pinned middleware leaves the 401's error result bound
+   and binds nothing from the 200; the repaired one re-binds *)
+Definition digest_witness_cfg : config := mkCfg (mkTargets true true false) true false None None.
+Definition digest_witness_resp : response :=   (* the 401 after auto-read and binding *)
+  mkResp true 401 None None true false EReq.
+Definition digest_witness : digest_oracle :=
+  mkDigest None (TResp 200 None (mkBody None None None None)).
+
+Lemma digest_pinned_refuted :
+  let '(r, _, _) := digest_mw Pinned digest_witness_cfg digest_witness digest_witness_resp in
+  r_status r = 200 /\ result_state r = SuccessState /\ r_result r = false /\ r_error r = EReq.
+Proof. vm_compute. repeat split; reflexivity. Qed.
+
+Lemma digest_fixed_rebinds :
+  let '(r, e, _) := digest_mw Fixed digest_witness_cfg digest_witness digest_witness_resp in
+  r_status r = 200 /\ result_state r = SuccessState /\ r_result r = true /\ r_error r = ENone /\ e = None.
+Proof. vm_compute. repeat split; reflexivity. Qed.
+
+(* do(): a wrapper that returns (nil, err) on a request with a retry option made the pinned
+   loop dereference nil; the repaired loop retries with a response in hand *)
+Definition nil_wrapper_attempt : attempt :=
+  mkAttempt [] None [WShort true None (Some 1)] None (TFail 2) [] [] false.
+Definition retry_cfg : config := mkCfg (mkTargets false false false) true false (Some (1, false)) None.
+
+Lemma do_pinned_nil_deref : do_first_pinned Fixed retry_cfg nil_wrapper_attempt = PNilDeref.
+Proof. vm_compute. reflexivity. Qed.
+
+Lemma do_fixed_no_nil : forall fl cfg atts n prev ro e ls,
+  do_loop fl cfg atts n prev = DoRet ro e ls -> exists r, ro = Some r.
+Proof.
+  intros. pose proof (do_loop_resp_some _ _ _ _ _ _ _ _ H) as N. destruct ro; [eauto|contradiction].
+Qed.
+
+Lemma nil_wrapper_fixed :
+  run Fixed (mkProg ESend retry_cfg [nil_wrapper_attempt; nil_wrapper_attempt]) =
+  Returned (Some (set_err (Some 1) fresh_resp)) (Some 1) [[EvWIn 0; EvWOut 0; EvHook]; [EvWIn 0; EvWOut 0]] 0.
+Proof. vm_compute. reflexivity. Qed.
